@@ -10,6 +10,10 @@ for el in ('int', 'counted', 'string'):
     J.append(Job('c01_array', 'selfref_' + el, 'asan', quick=600, thorough=20000, shards=(2, 3)))
     J.append(Job('c01_array', 'selfref_' + el, 'plain', quick=600, thorough=20000, shards=(1, 2)))
     J.append(Job('c01_array', 'sq_' + el, 'asan', quick=500, thorough=15000, shards=(1, 2)))
+# growth whose allocation fails: ASan's allocator returns null above 1 MiB for these jobs, the library throws bad_alloc
+for el in ('int', 'counted', 'string'):
+    J.append(Job('c01_array', 'allocfail_' + el, 'asan', quick=60, thorough=1500, shards=(2, 4), params=dict(limit_mb=1),
+                 asan_extra='max_allocation_size_mb=1:allocator_may_return_null=1'))
 J.append(Job('c01_array', 'nested', 'asan', quick=300, thorough=6000, shards=(2, 4)))
 J.append(Job('c01_array', 'nested', 'plain', quick=300, thorough=6000, shards=(1, 2)))
 J.append(Job('c01_array', 'shared_growth_int', 'asan', quick=40, thorough=200, shards=(1, 2), floor=0.0))
@@ -20,8 +24,13 @@ plan('C01',
           'operation; non-trivial = at least 3 operations and at least one capacity-growth boundary crossed; distinct = hash of the operation-kind sequence and element type',
      jobs=J,
      assumptions=COMMON_ASSUME + ['Counted elements are tracked by an identity stored in the object, not by address, because Array relocates elements bitwise by design',
-                                  'new int elements created by resize() are indeterminate by design and are assigned before being compared'])
+                                  'new int elements created by resize() are indeterminate by design and are assigned before being compared',
+                                  'modes allocfail_* run with ASAN_OPTIONS max_allocation_size_mb=1:allocator_may_return_null=1: every malloc/realloc above 1 MiB returns null and '
+                                  'the library throws std::bad_alloc. Judged: the failed call changed nothing (length, element sequence f(0..n-1), construct/destroy accounting), '
+                                  'capacity >= length, and the array keeps working (appends into spare capacity, shrink, clone, concat, self-append, reserve, resize - each may fail '
+                                  'again, none may touch memory outside the block: ASan). Only the size-triggered failure is injected, not a failure of a small allocation'])
 T('C01', 'lock-step reference-sequence model over random multi-handle histories + element construct/destroy accounting, under ASan/LSan and at -O2',
   'Runs real Array/Stack/Queue operation histories (all public mutators, several handles, clones, self-referential arguments, every growth path) and compares every live handle with '
-  'a std::vector model after each step; elements with counted constructors/destructors and heap Strings make double destruction, leaks and stale reads observable.',
+  'a std::vector model after each step; elements with counted constructors/destructors and heap Strings make double destruction, leaks and stale reads observable. '
+  'Modes allocfail_* make the growth allocation itself fail (ASan allocation limit) and keep using the array.',
   'Trusts the std::vector model, gcc ASan/LSan. Growth of an array through one handle while another handle is alive is a listed known finding and is exercised only in its own stratum.')
